@@ -6,6 +6,7 @@ integer arithmetic on the tree.
 
 Tree (JSON for the Lean driver): ["num", n] | ["name", s] | ["neg", e] | ["bin", op, a, b]
 """
+import re
 LEVEL = {'|': 0, '+': 1, '-': 1, '*': 2, '/': 2, '<<': 3, '>>': 3}
 
 
@@ -140,7 +141,10 @@ def _render(rng, t, min_level, right_side, octal, redundancy, c_safe=False):
         gap = _sp(rng)
         if not octal and op == '-' and right.startswith('-'):
             gap = ' '      # isar text is pasted into C++ and Python: `a--b` would be a decrement there (prophyc refuses it since b9757ab)
-        s = left + _sp(rng) + op + gap + right
+        before = _sp(rng)
+        if not octal and op in ('+', '-') and re.search(r'0[xX][0-9a-fA-F]*[eE]\Z', left):
+            before = ' '   # `0xe-1` is one (ill-formed) number for a C++ compiler: prophyc refuses such isar text since bed09d7
+        s = left + before + op + gap + right
         if lvl < min_level or shift:
             s = '(' + s + ')'
     if rng.random() < redundancy:
